@@ -37,6 +37,17 @@ type jobOut struct {
 	counts map[string]int
 	evals  int
 	keys   []string
+	until  time.Time // time box of the family: a job that is still running then stops before its next case
+	cut    bool
+}
+
+// expired: the family's time box has passed; the job records that it was cut short (the run is
+// then reported as not exhaustive) and the caller skips the rest of its cases.
+func (o *jobOut) expired() bool {
+	if o.cut || (o.evals%64 == 0 && time.Now().After(o.until)) {
+		o.cut = true
+	}
+	return o.cut
 }
 
 func (o *jobOut) count(k string) { o.counts[k]++ }
@@ -69,8 +80,13 @@ func runJobs(r *vlib.Report, jobs []job, until time.Time) {
 					mu.Unlock()
 					continue
 				}
-				o := &jobOut{counts: map[string]int{}}
+				o := &jobOut{counts: map[string]int{}, until: until}
 				jobs[i].run(o)
+				if o.cut {
+					mu.Lock()
+					skipped++
+					mu.Unlock()
+				}
 				for _, k := range o.keys {
 					r.Nontrivial(k)
 				}
@@ -97,7 +113,7 @@ func runJobs(r *vlib.Report, jobs []job, until time.Time) {
 		}
 	}
 	if skipped > 0 {
-		r.NotExhaustive(fmt.Sprintf("time box of family %q reached: %d of %d jobs not run (jobs run in declaration order on %d workers)", strings.Fields(jobs[0].name)[0], skipped, len(jobs), runtime.NumCPU()))
+		r.NotExhaustive(fmt.Sprintf("time box of family %q reached: %d of %d jobs not run or cut short (jobs run in declaration order on %d workers)", strings.Fields(jobs[0].name)[0], skipped, len(jobs), runtime.NumCPU()))
 	}
 }
 
@@ -106,6 +122,9 @@ func cfgKey(c jwtCfg) string {
 }
 
 func evalJWT(o *jobOut, c jwtCase, fam string) {
+	if o.expired() {
+		return
+	}
 	p, exp, obs := checkJWT(c)
 	o.evals++
 	o.keys = append(o.keys, "jwt|"+cfgKey(c.Cfg)+"|"+c.Cfg.Prev+"|"+strings.Join(c.Auth, "\x00")+fmt.Sprint(c.Auth == nil))
@@ -293,17 +312,69 @@ func runSeqFamily(r *vlib.Report, thorough bool, until time.Time) {
 	r.Scenario("rotation-searches", summary)
 }
 
+// csPlan: one signed base request and how much of the mutation space is applied to it.
+type csPlan struct {
+	b          csBase
+	deep, full bool
+	num        int // level of the numeric-timestamp list (csNumericMutations)
+}
+
+var csFirstBody = map[string]string{"GET": "", "DELETE": "", "POST": "hello", "PUT": "hello"}
+
+func csPlans(thorough bool) []csPlan {
+	var out []csPlan
+	for _, b := range csBases(thorough) {
+		// deep: full signature alphabet and every ciphertext bit; full: every field mutated;
+		// otherwise only the mutations whose outcome depends on tolerance / X-Request-Uri
+		p := csPlan{b: b, deep: thorough && b.TolMs == 1000 && !b.XUri, full: b.TolMs == 1000 && (thorough || !b.XUri) || thorough && !b.XUri, num: 1}
+		switch {
+		case thorough && !b.XUri:
+			p.num = 3
+		case thorough:
+			p.num = 2
+		case !b.XUri && b.Target == "/a/b?c=d&e=f" && b.Body == csFirstBody[b.Method] && (b.Method == "GET" && b.Type == "0" || b.Method == "POST" && b.Type == "1"):
+			p.num = 3
+		case !b.XUri && b.Target == "/a/b?c=d&e=f" && b.Body == csFirstBody[b.Method]:
+			p.num = 2
+		}
+		out = append(out, p)
+	}
+	// extreme and sub-second tolerances (configuration numbers; a negative tolerance is not a configuration
+	// the statement speaks about and is left out): the timestamp lists only
+	for _, b := range []csBase{{Method: "GET", Target: "/a/b?c=d&e=f", Type: "0"}, {Method: "POST", Target: "/a/b?c=d&e=f", Body: "hello", Type: "1"}} {
+		for _, ns := range []int64{1, 999_999_999, 1 << 53, 100 * 365 * 86400 * 1_000_000_000, 1<<63 - 1} {
+			b.TolNs = ns
+			lvl := 2
+			if thorough {
+				lvl = 3
+			}
+			out = append(out, csPlan{b: b, num: lvl})
+		}
+	}
+	// the same gate built with an UnsignedCallback (the way rest.WithUnsignedCallback wires it)
+	for _, m := range []string{"GET", "POST"} {
+		for _, typ := range []string{"0", "1"} {
+			for _, tol := range []int64{1000, 3600_000} {
+				if tol == 1000 || thorough {
+					out = append(out, csPlan{b: csBase{Method: m, Target: "/a/b?c=d&e=f", Body: csFirstBody[m], Type: typ, TolMs: tol, CB: true}, full: true, num: 1})
+				}
+			}
+		}
+	}
+	return out
+}
+
 func csJobs(thorough bool) []job {
 	var jobs []job
-	for _, b := range csBases(thorough) {
-		b := b
+	for _, pl := range csPlans(thorough) {
+		pl := pl
+		b := pl.b
 		jobs = append(jobs, job{name: "cs", run: func(o *jobOut) {
 			memo := &rsaMemo{}
-			// deep: full signature alphabet and every ciphertext bit; full: every field mutated;
-			// otherwise only the mutations whose outcome depends on tolerance / X-Request-Uri
-			deep := thorough && b.TolMs == 1000 && !b.XUri
-			full := b.TolMs == 1000 && (thorough || !b.XUri) || thorough && !b.XUri
-			csMutations(b, deep, full, func(m csMut) {
+			csMutations(b, pl.deep, pl.full, pl.num, func(m csMut) {
+				if o.expired() {
+					return
+				}
 				c := csCase{Base: b, Mut: m}
 				p, exp, obs := checkCS(c, memo)
 				o.evals++
@@ -313,6 +384,9 @@ func csJobs(thorough bool) []job {
 					out = "ran"
 				}
 				o.count("cs:" + verdictName(exp.Verdict) + "->" + out)
+				if m.Kind == "ts-num" || b.TolNs != 0 {
+					o.count("cs-num:" + verdictName(exp.Verdict) + "(" + exp.Reason + ")->" + out)
+				}
 				if exp.Reason == "clock-unstable" {
 					o.count("cs:clock-unstable-skipped")
 				}
@@ -415,6 +489,14 @@ func replay(cfg *vlib.Config) {
 		p = checkEngine(*rc.Engine, nil)
 		cleanup()
 		fmt.Printf("replay engine: %s\n", rc.Engine.String())
+	case "codec":
+		p = checkCodec(*rc.Codec)
+		fmt.Printf("replay codec helper: %s\n", rc.Codec.String())
+	case "engine-jwt":
+		cleanup := engSetupKeys()
+		p = checkEngineJWT(*rc.EngineJWT, nil)
+		cleanup()
+		fmt.Printf("replay engine (JWT groups): %s\n", rc.EngineJWT.String())
 	case "script":
 		p = checkScript(*rc.Script)
 		fmt.Printf("replay handler script: %s\n", rc.Script.String())
@@ -458,15 +540,22 @@ func main() {
 	}
 
 	phase := map[string]string{}
+	only := os.Getenv("C18_ONLY") // development aid: comma-separated family names; the run is then marked not exhaustive
+	if only != "" {
+		r.NotExhaustive("C18_ONLY=" + only + ": only these families were run")
+	}
 	timed := func(name string, f func()) {
+		if only != "" && !strings.Contains(","+only+",", ","+name+",") {
+			return
+		}
 		t0 := time.Now()
 		f()
 		phase[name] = fmt.Sprintf("%.1fs", time.Since(t0).Seconds())
 	}
-	// soft time box: 75 s quick / 13 min thorough, split over the families so that a slow machine
+	// soft time box: 130 s quick / 18 min thorough, split over the families so that a slow machine
 	// truncates every family's tail instead of dropping the later families altogether
 	if cfg.BudgetS == 0 {
-		cfg.BudgetS = 100
+		cfg.BudgetS = 130
 		if thorough {
 			cfg.BudgetS = 1080
 		}
@@ -475,18 +564,27 @@ func main() {
 		return cfg.Start.Add(time.Duration(frac * float64(cfg.BudgetS) * float64(time.Second)))
 	}
 	jj := jwtJobs(thorough)
-	timed("jwt", func() { runJobs(r, jj, at(0.35)) })
-	timed("seq", func() { runSeqFamily(r, thorough, at(0.42)) })
+	timed("jwt", func() { runJobs(r, jj, at(0.28)) })
+	nj := jwtNumJobs(thorough)
+	timed("jwt-num", func() { runJobs(r, nj, at(0.31)) })
+	timed("seq", func() { runSeqFamily(r, thorough, at(0.35)) })
 	cj := csJobs(thorough)
-	timed("cs", func() { runJobs(r, cj, at(0.72)) })
+	timed("cs", func() { runJobs(r, cj, at(0.64)) })
 	kj := cryptJobs(thorough)
-	timed("crypt", func() { runJobs(r, kj, at(0.75)) })
+	timed("crypt", func() { runJobs(r, kj, at(0.66)) })
+	dj := codecJobs(thorough)
+	timed("codec", func() { runJobs(r, dj, at(0.67)) })
 	sj := scriptJobs(thorough)
-	timed("script", func() { runJobs(r, sj, at(0.78)) })
+	timed("script", func() { runJobs(r, sj, at(0.69)) })
 	ej := engineJobs()
 	timed("engine", func() {
 		defer engSetupKeys()()
-		runJobs(r, ej, at(0.84))
+		runJobs(r, ej, at(0.74))
+	})
+	ejj := engineJWTJobs()
+	timed("engine-jwt", func() {
+		defer engSetupKeys()()
+		runJobs(r, ejj, at(0.78))
 	})
 	// last: the shards of the time-history family get whatever is left of the budget
 	timed("hist", func() { runHistFamily(r, thorough) })
@@ -496,15 +594,20 @@ func main() {
 		"jwt_jobs (bases + mutated bases)": len(jj), "cs_jobs (bases)": len(cj), "crypt_jobs (chunks of 64)": len(kj),
 		"jwt_base_requests": len(allJWTBases(jwtCfgs)), "cs_base_requests": len(csBases(thorough)), "crypt_cases": len(cryptCases(thorough)),
 		"handler_scripts": len(allScripts(thorough)), "script_cases (routes x scripts)": len(scriptCases(thorough)), "time_history_shards": len(histShardNames(thorough)), "engine_servers (sequences of 2-3 route groups)": len(ej),
+		"jwt_time_claim_literals": len(nj), "jwt_time_claim_payload_shapes_per_literal": len(jwtNumPayloads("0")), "engine_jwt_servers (sequences of 2-3 route groups)": len(ejj), "codec_helper_jobs (chunks of 128)": len(dj),
+		"cs_plans (bases incl. extreme tolerances and callback variants)": len(csPlans(thorough)),
 	})
 	b := mkBase(jwtCfgs[0], "s", "HS256", 2, [3]int{3, 1, 1})
 	sizes := map[string]int{}
 	for lvl := 0; lvl <= 2; lvl++ {
 		jwtMutations(b, lvl, func(string, []string) { sizes[fmt.Sprintf("jwt mutations of the sample base, level %d", lvl)]++ })
 	}
-	csMutations(csBases(thorough)[0], false, false, func(csMut) { sizes["cs mutations of the first base, tolerance/URI-dependent sub-list"]++ })
-	csMutations(csBases(thorough)[0], false, true, func(csMut) { sizes["cs mutations of the first base, full"]++ })
-	csMutations(csBases(thorough)[0], true, true, func(csMut) { sizes["cs mutations of the first base, deep"]++ })
+	csMutations(csBases(thorough)[0], false, false, 0, func(csMut) { sizes["cs mutations of the first base, tolerance/URI-dependent sub-list"]++ })
+	csMutations(csBases(thorough)[0], false, true, 0, func(csMut) { sizes["cs mutations of the first base, full"]++ })
+	csMutations(csBases(thorough)[0], true, true, 0, func(csMut) { sizes["cs mutations of the first base, deep"]++ })
+	for lvl := 1; lvl <= 3; lvl++ {
+		csNumericMutations(csBases(thorough)[0], lvl, func(csMut) { sizes[fmt.Sprintf("cs numeric timestamp mutations of the first base, level %d", lvl)]++ })
+	}
 	r.Scenario("mutation-space-sizes", sizes)
 	r.Sample(map[string]any{"family": "jwt", "base": b.name(), "header": b.Hdr, "payload": b.Pay, "authorization": "Bearer " + b.Tok})
 	r.Sample(map[string]any{"family": "jwt", "mutation": "alg=none/sig-empty", "authorization": "Bearer " + b64u([]byte(stdHeader("none"))) + "." + b.p + "."})
@@ -514,11 +617,16 @@ func main() {
 	r.Sample(map[string]any{"family": "script", "case": scriptCase{Route: "cs", Type: "1", ReqLen: 5, Script: []string{"w5", "f", "w16"}}})
 	r.Sample(map[string]any{"family": "cs", "case": csCase{Base: csBases(thorough)[0], Mut: csMut{Kind: "ts-signed", I: 2}}})
 	r.Sample(map[string]any{"family": "crypt", "case": cryptCases(thorough)[40]})
+	r.Sample(map[string]any{"family": "cs", "case": csCase{Base: csBases(thorough)[0], Mut: csMut{Kind: "ts-num", Arg: "dec|-1*2^55"}}, "meaning": "consistently signed request whose timestamp is now - 2^55 s"})
+	r.Sample(map[string]any{"family": "jwt-num", "payload": jwtNumPayloads("1e400")[4].pay})
+	r.Sample(map[string]any{"family": "engine-jwt", "case": engJwtCase{Groups: []string{"Ja", "Tba", "JaS1"}, Target: 1, Token: "tokA", Signed: true}})
 	r.Assume("base64url signature decoding is the lenient RFC 4648 one (unused trailing bits ignored): a token whose last signature character differs only in those bits carries the same signature bytes and is treated as the same credential by the oracle")
 	r.Assume("iat in the future, Authorization shapes other than exactly 'Bearer <token>', X-Content-Security type values other than 0/1 and signed-but-undecryptable bodies are not pinned (either outcome allowed); safety (no run without a valid credential) is demanded for all of them")
+	r.Assume("numbers in credentials are judged with math/big (no machine integer, no float): a content-security timestamp is pinned both ways only in canonical decimal spelling; for any other spelling (leading + or zeros, fraction, exponent, base prefix, separators, white space) the request must be refused when NO tolerant reading of it lies inside the window and is otherwise not pinned. JWT exp/nbf: must not run when exp <= now or nbf >= now+1 (now known to the second) or the claim is not a JSON number; liveness is pinned only for canonical integer literals within +-2^53, anything else that holds (fractions, exponents, larger values, repeated names with disagreeing values, iat ahead) may be refused")
+	r.Assume("a negative content-security tolerance is not a configuration the statement speaks about and is not enumerated (go-zero's window test wraps for tolerance -1s and timestamp -2^63; noted in NOTES.md)")
 	r.Assume("VerifySignature reads the wall clock: each content-security case is built relative to the current unix second and re-run if the second changed while it was served")
 	r.Assume("clock: jwt.TimeFunc, timex.Now (rewritten core/timex/relativetime.go) and time.Now inside the rewritten rest/token package read one process-global virtual clock that only the clock-jump operations of the time-history family move (worker processes, one history at a time); real time is not virtualised, so anything kept on a real-time TTL outlives every history. The parser-level rotation search still models its jump by constructing a parser with the same counters and an aged resetTime (white-box)")
 	r.Assume("handler scripts: the status is bracketed (net/http first-commit semantics, or the code of the script's first WriteHeader - a buffering middleware may let a WriteHeader that follows a buffered Write through); a response without any written byte may be empty or decrypt to nothing")
-	r.SetRule("case = (configuration, wire-level request): JWT = base request (cfg x signer x alg x claim set x exp/nbf/iat in {absent,now-1,now,now+1}) or one single-field mutation of it (complete lists in jwt.go: alg/typ/header substitutions x signature candidates, every bit flip of header/payload/signature, every truncation, re-signing with 20 wrong/confusable keys, segment counts, bad base64, Authorization shapes); seq = every request history over the op alphabet up to the depth bound; cs = base signed request x one mutation (timestamp window edges, method, target, every body bit, every signature character, fingerprint, ciphertext bytes, type, missing attributes); crypt = key size x payload length x pattern x handler mode; hist = every history (full tree, no merging) over {5 tokens with exp/nbf just ahead x (genuine, signature bit flipped, time claims edited under the old signature), clock +1s, clock +25h} on one live Authorize instance up to the length bound, each request judged at the current virtual time; engine = every server of 2-3 route groups over {no signature, strict/non-strict x private keys {K1},{K2},{K1,K2}} bound through the real rest engine x target group x request built for K1 / K2 / mismatched fingerprint and secret / unknown fingerprint / no header x body type, accepted iff valid under a key of THAT group; script = route (CryptionHandler x key size x request length, content security type 1 / type 0 / no body) x every handler script over {Write 5/16/0(/33) bytes, Flush, WriteHeader 201/404} up to length 3 (4 thorough), the client decrypting the whole response body as one message. Every case reaches the gate under test and is judged by the independent verifier; distinct = distinct wire requests (jwt), distinct parser states or paths (seq), distinct histories (hist), distinct descriptors (cs, crypt, script, engine).")
+	r.SetRule("case = (configuration, wire-level request): JWT = base request (cfg x signer x alg x claim set x exp/nbf/iat in {absent,now-1,now,now+1}) or one single-field mutation of it (complete lists in jwt.go: alg/typ/header substitutions x signature candidates, every bit flip of header/payload/signature, every truncation, re-signing with 20 wrong/confusable keys, segment counts, bad base64, Authorization shapes); seq = every request history over the op alphabet up to the depth bound; cs = base signed request x one mutation (timestamp window edges, method, target, every body bit, every signature character, fingerprint, ciphertext bytes, type, missing attributes); crypt = key size x payload length x pattern x handler mode; hist = every history (full tree, no merging) over {5 tokens with exp/nbf just ahead x (genuine, signature bit flipped, time claims edited under the old signature), clock +1s, clock +25h} on one live Authorize instance up to the length bound, each request judged at the current virtual time; engine = every server of 2-3 route groups over {no signature, strict/non-strict x private keys {K1},{K2},{K1,K2}} bound through the real rest engine x target group x request built for K1 / K2 / mismatched fingerprint and secret / unknown fingerprint / no header x body type, accepted iff valid under a key of THAT group; script = route (CryptionHandler x key size x request length, content security type 1 / type 0 / no body) x every handler script over {Write 5/16/0(/33) bytes, Flush, WriteHeader 201/404} up to length 3 (4 thorough), the client decrypting the whole response body as one message. Numbers: cs timestamps now + K*2^E (+ jitter on the window edges) for E in {31,32,33,52..56,58,61..64}, K in +-{1,2,3,7,128,200}, 32 non-canonical spellings of in-window and out-of-window instants, absolute extremes, tolerances 1ns..MaxInt64 ns; jwt-num = 353 literals (same distances from now, absolute extremes, fractions, exponents, 400-digit strings, non-numbers, non-JSON) x {exp,nbf,iat} x {alone, framed by valid other claims, repeated name first/last, all three} x (cfg, signer); engine-jwt = every server of 2-3 route groups over {none, WithJwt(A), WithJwt(B), WithJwtTransition(A,B), (B,A), WithJwt(A)+strict signature} x target x token {by A, by B, by unknown secret, expired, none} x {signed, unsigned} (x callbacks for 2-group servers); codec = EcbEncryptBase64/EcbDecryptBase64 x key spelling x payload. Every case reaches the gate under test and is judged by the independent verifier; distinct = distinct wire requests (jwt), distinct parser states or paths (seq), distinct histories (hist), distinct descriptors (cs, crypt, script, engine).")
 	r.Finish()
 }
